@@ -902,7 +902,12 @@ func (progBldr *ProgBuilder) Union(ctx *context) {
 	op2 := ctx.popNodeSet("union (operand2)")
 	op1 := ctx.popNodeSet("union (operand1)")
 
-	ctx.pushDatum(NewNodesetDatum(append(op1, op2...)))
+	// A set of its own: an operand may be a slice the data tree handed out
+	// (to this run and to others), appending to it can write into the
+	// array behind it.
+	union := make([]xutils.XpathNode, 0, len(op1)+len(op2))
+	union = append(append(union, op1...), op2...)
+	ctx.pushDatum(NewNodesetDatum(union))
 }
 
 // Convert arg type according to XPATH rules into required type for passing
